@@ -555,6 +555,9 @@ def replay(path):
     d = json.load(open(path))
     print(json.dumps(d, indent=1)[:4000])
     rep = d.get('replay', {})
+    if rep.get('check') == 'c10_net':      # a site / contraction of the network built by create_tn (harness/c10_net.py)
+        from harness import c10_net
+        return c10_net.replay_dict(rep)
     if 'decoder' not in rep or 'dist' not in rep or 'syndrome' not in rep:
         return 0
     import logging
@@ -589,3 +592,20 @@ def replay(path):
         bad = True
     print('REPRODUCED' if bad else 'not reproduced')
     return 1 if bad else 0
+
+
+_run_base = run
+
+
+def run(ctx):   # noqa: F811
+    """... then the network correspondence (harness/c10_net.py): the tensor network PlanarMPSDecoder.TNC.create_tn builds,
+    site by site against the Gallina network of Tensor/CosetNetwork.v (engine build/qmodel_c10n), and its contractions"""
+    _run_base(ctx)
+    from harness import c10_net
+    c10_net.run_extra(ctx)
+    ctx.rule += ('; plus (c10_net) every site tensor (shape and all entries, exact) of PlanarMPSDecoder.TNC.create_tn on planar %s '
+                 'for power-of-two / dyadic / ratio / depolarizing / biased / zero-letter distributions and identity, sample_recovery, '
+                 'sample x logical, random, all-Y, single-letter samples against the Gallina network planar_network; its contractions '
+                 '(both directions, transposed, splits, _coset_probabilities c/r/a) against the model sweep, exactly for power-of-two '
+                 'distributions; PlanarRMPSDecoder sites against the model qubit nodes fused with their deltas'
+                 % ctx.pick('2x2..4x4, 2x5, 5x3, 5x5', '2x2..5x5, 6x6, 2x7, 7x3'))
